@@ -18,7 +18,7 @@ import warnings
 
 import numpy as np
 
-from .. import bases, bootstrap, contracts, fingerprint as fpr, geom
+from .. import bases, bootstrap, contracts, fingerprint as fpr, gen, geom
 from .c16 import deep_state, state_diff_keys, SCRATCH
 
 PROPERTY = "C03"
@@ -101,11 +101,23 @@ def base_list(cs, tier):
         V, faces = bases.u_mesh()
         return cs.Polyhedron(V, [list(f) for f in faces], faces_are_convex=False)
 
-    B["Polyhedron"] = B["Polyhedron"] + [("U-voxel-noflag", nonconvex_flag)]
+    def warped():
+        # a triangulated, rotated box whose corners carry coordinate noise of 2e-7 of its size (a mesh that went through single
+        # precision): neighbouring triangles are coplanar within merge_faces' tolerances but not exactly, so what a merged
+        # face's plane *is* has to come from the current vertices and faces - the only thing a fresh object has
+        P = bases.convex_points("box")
+        h = geom.hull_facets(P)
+        tri = [list(t) for f in h.facets for t in geom.fan(list(f))]
+        r = np.random.default_rng(20240607)
+        R = gen.random_rotation(r)
+        Pw = (P + r.uniform(-1, 1, size=P.shape) * 2e-7 * float(np.ptp(P, axis=0).max())) @ R.T
+        return cs.Polyhedron(Pw, tri)
+
+    B["Polyhedron"] = B["Polyhedron"] + [("U-voxel-noflag", nonconvex_flag), ("box-triangulated-warped", warped)]
     # the same chiral solid given in very small units (a 100 nm particle in metres): absolute guards must not bite
     B["ConvexPolyhedron"] = B["ConvexPolyhedron"] + [("chiral7-nano", lambda: cs.ConvexPolyhedron(bases.convex_points("chiral7") * 1e-7))]
     if tier == "quick":
-        keep = {"ConvexPolyhedron": ["chiral7", "box", "chiral7-nano"], "Polyhedron": ["chiral7", "U-voxel", "U-voxel-noflag", "box-triangulated"],
+        keep = {"ConvexPolyhedron": ["chiral7", "box", "chiral7-nano"], "Polyhedron": ["chiral7", "box-triangulated-warped", "U-voxel", "U-voxel-noflag", "box-triangulated"],
                 "ConvexSpheropolyhedron": ["chiral7"], "Polygon": ["comb-ccw", "star-cw-tilted"], "ConvexPolygon": ["pentagon-tilted", "kite-xy"],
                 "ConvexSpheropolygon": ["quad-xy-r0.4"]}
         return {c: [(l, f) for (l, f) in B[c] if l in keep[c]] for c in CLASSES}
